@@ -1,6 +1,6 @@
 from vlib.e1 import Ob, run_obligations
 
-TECHNIQUE = 'CrossHair symbolic execution (z3) of each built-in middleware\'s request/render function over symbolic selectors of what next() produces, with a contract stub for zlib'
+TECHNIQUE = 'CrossHair symbolic execution (z3) of each built-in middleware\'s request/render function over symbolic selectors of what next() produces, with a contract stub for zlib; stub-free case splits over response sequences through one GzipMiddleware instance with real Accept-Encoding headers; end-to-end differential sweep as validation'
 LEVEL = 'model_checking'
 
 
